@@ -8,6 +8,7 @@ mod c34;
 mod entropy;
 mod misc;
 mod tgen;
+mod tworld;
 mod env;
 mod genr;
 mod lockstep;
@@ -69,6 +70,13 @@ macro_rules! checks {
             ("C27", mchecks::C27),
             ("C28", runner::Both { id: "C28", a: mchecks::C28, b: c13::C13 { observer_arm: true }, a_share: 6, rule: "Arm A (6/8): per-step exactness against RefLc3 (see C28 lockstep rule: read/written/modified sets per step_in, untracked host accesses in between). Arm B (2/8): accumulation — the observer after run/run_with_limit/run_while/step_over/step_out equals the union of the per-step observer sets of a twin simulator driven by step_in over the same boundaries, and is empty after being taken." }),
             ("C15", misc::C15),
+            ("C17", tworld::TCheck(tworld::Prop::C17)),
+            ("C18", tworld::TCheck(tworld::Prop::C18)),
+            ("C19", tworld::TCheck(tworld::Prop::C19)),
+            ("C20", tworld::TCheck(tworld::Prop::C20)),
+            ("C21", tworld::TCheck(tworld::Prop::C21)),
+            ("C22", tworld::TCheck(tworld::Prop::C22)),
+            ("C26", tworld::TCheck(tworld::Prop::C26)),
             ("C29", misc::C29),
             ("C30", misc::C30),
             ("C31", pairs::C31),
